@@ -241,13 +241,20 @@ def age_field(f):
     if not _mesh_unchanged(f.mesh, snap):
         _restore_mesh(f.mesh, snap)
         raise RuntimeError("aging changed the field's mesh")
+    # re-assign data and validity, read everything, put the originals back: through the setters, or (every other
+    # object) by writing into the arrays the field hands out (`f.valid[...] = v` is the library's own idiom)
+    inplace_back = (_state["count"] >> 3) & 1
     try:
         f.array = np.ones_like(arr) if arr.dtype.kind != "b" else ~arr
-        f.valid = ~val
+        f.valid = np.ones_like(val) if (_state["count"] >> 4) & 1 else ~val
         warm_field(f)
     finally:
-        f.array = arr
-        f.valid = val
+        if inplace_back and f.array.shape == arr.shape and f.valid.shape == val.shape:
+            f.array[...] = arr
+            f.valid[...] = val
+        else:
+            f.array = arr
+            f.valid = val
     if not (_same(f.array, arr) and _same(f.valid, val)):
         raise RuntimeError("aging changed the field's data")
     STATS["aged_fields"] += 1
